@@ -11,7 +11,7 @@
    Still open: that in_D is preserved, and that every legal move of a position in D passes refines_b
    (makemove_refines_statement). *)
 From Coq Require Import NArith ZArith List Bool.
-From Rawr Require Import Consts Bits Magic Position MoveGen MakeMove MakeStages Rules Abs AbsFacts MakeFacts MakeAbs CastleFacts CastleAbs.
+From Rawr Require Import Consts Bits Magic Position MoveGen MakeMove MakeStages Rules Abs AbsFacts MakeFacts MakeAbs CastleFacts CastleAbs GenSane.
 Import ListNotations.
 Local Open Scope N_scope.
 
@@ -47,6 +47,16 @@ Theorem C02_makemove_refines : forall u p m,
   refines_b p m = true -> abs_state (makemove u p m) = apply (abs_state p) (dec p m).
 Proof. exact makemove_refines_all. Qed.
 
+(* NO per-move premise: on a position that passes the executable test good_pos_b (boards below 2^64, one man at most
+   per square, colours disjoint, one own king, castle files <= 7, a coherent en-passant square, castling rights backed by
+   rooks with the king between them on the home rank, stored key = recomputed key), EVERY move the generator emits --
+   pawn pushes, captures, promotions, en passant, knight, slider and king moves, both castlings -- refines Rules.apply.
+   (proofs/GenSane.v: the generator block by block; `allowed` never contains one of our men because a ray that meets a
+   checker stops exactly there.) *)
+Theorem C02_every_generated_move_refines : forall u p m,
+  good_pos_b p = true -> In m (legal_moves p) -> abs_state (makemove u p m) = apply (abs_state p) (dec p m).
+Proof. exact good_pos_refines. Qed.
+
 (* the definition of makemove is the composition of the stages the proof works on *)
 Theorem C02_makemove_is_its_stages : forall u p0 m,
   makemove u p0 m =
@@ -74,9 +84,13 @@ Example C02_castling_example :
   /\ premises_b (after castle_line) (mkMv 4 7 NOPIECE) = false.
 Proof. repeat split; vm_compute; reflexivity. Qed.
 
+Example C02_good_example : good_pos_b startpos = true /\ good_pos_b (after castle_line) = true.
+Proof. split; vm_compute; reflexivity. Qed.
+
 Print Assumptions C02_makenull_spec.
 Print Assumptions C02_makemove_refines_noncastling.
 Print Assumptions C02_makemove_is_its_stages.
 Print Assumptions C02_makemove_refines_castling.
 Print Assumptions C02_makemove_refines.
+Print Assumptions C02_every_generated_move_refines.
 Print Assumptions C02_flip_keeps_board.
